@@ -22,6 +22,7 @@ func genC18(w *World, res *CheckResult) {
 	res.Assumptions = append(res.Assumptions, g.notes...)
 	res.Functions = append(res.Functions, g.funcs...)
 	res.Obls = append(res.Obls, selectObls(genPureAll(w), `^vm\.(equal|less)/`)...)
+	genCheckerPointer(w, res)
 	// ranges: makeRange builds exactly min..max
 	tmp := &CheckResult{}
 	if pd := propByID("T00"); pd != nil {
